@@ -1583,8 +1583,122 @@ func driveBlocksConc(opt *Options) error {
 			notes = append(notes, blkStress(gm[0], gm[1], gm[2], G, stress, rnd)...)
 		}
 	}
+	if stress > 0 {
+		notes = append(notes, blkStressFaulty(rnd)...)
+	}
 	out, _ := json.MarshalIndent(map[string]any{"notes": notes}, "", " ")
 	return os.WriteFile(opt.Out+".notes.json", out, 0o644)
+}
+
+// blkFaultyBuf: a byte storage whose Buffer call fails now and then (transient faults of a mapped file, a remote store ...)
+type blkFaultyBuf struct {
+	in     gbytes.Buffer
+	armed  atomic.Int32
+	failed atomic.Int64
+}
+
+func (f *blkFaultyBuf) Buffer(offs int64, size int) ([]byte, error) {
+	if f.armed.CompareAndSwap(1, 0) {
+		f.failed.Add(1)
+		return nil, fmt.Errorf("harness: transient storage fault")
+	}
+	return f.in.Buffer(offs, size)
+}
+func (f *blkFaultyBuf) Size() int64          { return f.in.Size() }
+func (f *blkFaultyBuf) Grow(n int64) error   { return f.in.Grow(n) }
+func (f *blkFaultyBuf) Close() error         { return f.in.Close() }
+
+// blkStressFaulty: the concurrent stress over a storage with transient faults, with one more goroutine that keeps
+// asking Available / Count while the others arrange and free: a call that fails changes nothing, and at quiescence
+// Available is Count minus the blocks held - whatever an allocator does to recover from a fault.
+func blkStressFaulty(rnd *rand.Rand) []blkNote {
+	var notes []blkNote
+	for _, gm := range [][2]int{{16, 3}, {1, 1500}, {4, 400}} {
+		bs, segs := gm[0], gm[1]
+		fb := &blkFaultyBuf{in: gbytes.NewInMemBytes(int(int64(segs) * segBytes(bs)))}
+		b, err := gbytes.NewBlocks(bs, fb, true)
+		cfg := fmt.Sprintf("inmem bs=%d segments=%d faulty storage", bs, segs)
+		if err != nil {
+			notes = append(notes, blkNote{Sig: "blocks: NewBlocks failed in the driver: " + blkShort(blkErrKind(err)), Cfg: cfg})
+			continue
+		}
+		cnt := b.Count()
+		const G, hold, ops = 6, 12, 40000
+		held := make([][]int, G)
+		var stop atomic.Bool
+		var panicked atomic.Value
+		var wg, aux sync.WaitGroup
+		aux.Add(4)
+		for q := 0; q < 3; q++ {
+			go func() { // keep looking at the counters
+				defer aux.Done()
+				defer func() { recover() }()
+				for !stop.Load() {
+					if av := b.Available(); av < 0 || av > cnt {
+						panicked.Store(fmt.Sprintf("Available()=%d outside 0..Count", av))
+					}
+				}
+			}()
+		}
+		go func() { // arms a fault every now and then
+			defer aux.Done()
+			for !stop.Load() {
+				fb.armed.Store(1)
+				time.Sleep(20 * time.Microsecond)
+			}
+		}()
+		for g := 0; g < G; g++ {
+			wg.Add(1)
+			seed := rnd.Int63()
+			go func(g int) {
+				defer wg.Done()
+				defer func() {
+					if p := recover(); p != nil {
+						panicked.Store(fmt.Sprint(p))
+					}
+				}()
+				lr := rand.New(rand.NewSource(seed))
+				for n := 0; n < ops; n++ {
+					if len(held[g]) < hold && (len(held[g]) == 0 || lr.Intn(2) == 0) {
+						if idx, err := b.ArrangeBlock(); err == nil {
+							held[g] = append(held[g], idx)
+						}
+					} else {
+						k := lr.Intn(len(held[g]))
+						if err := b.FreeBlock(held[g][k]); err == nil {
+							held[g] = append(held[g][:k], held[g][k+1:]...)
+						}
+					}
+				}
+			}(g)
+		}
+		wg.Wait()
+		stop.Store(true)
+		aux.Wait()
+		fb.armed.Store(0)
+		if pv := panicked.Load(); pv != nil {
+			notes = append(notes, blkNote{Sig: "blocks: concurrent, faulty storage: a call panicked or a counter left its range", Got: pv, Cfg: cfg})
+			continue
+		}
+		seen := map[int]bool{}
+		dup := 0
+		for g := range held {
+			for _, idx := range held[g] {
+				if seen[idx] {
+					dup++
+				}
+				seen[idx] = true
+			}
+		}
+		if dup > 0 {
+			notes = append(notes, blkNote{Sig: "blocks: concurrent, faulty storage: the same index is held twice", Got: dup, Cfg: cfg})
+		}
+		if av := b.Available(); av != cnt-len(seen) {
+			notes = append(notes, blkNote{Sig: "blocks: concurrent, faulty storage: Available at quiescence differs from Count minus held blocks",
+				Got: map[string]any{"available": av, "faults": fb.failed.Load()}, Want: cnt - len(seen), Cfg: cfg})
+		}
+	}
+	return notes
 }
 
 // blkStress: G goroutines allocate / tag / verify / free as fast as they can on a
